@@ -180,6 +180,53 @@ __CPROVER_ensures(g_add_calls <= g_p1_calls)
 ;
 #endif
 
+
+/* ======================= accessors (C08, C14, C16) ==========================
+ * What an application OBSERVES of an imported key are these one-line getters; the import
+ * contracts above say what the fields hold, these say the getters report exactly the fields
+ * and write nothing. */
+#define DECL_ITEM_GETTER(NAME, RET, EXPR) \
+RET NAME(const jwk_item_t *item) \
+__CPROVER_requires(__CPROVER_is_fresh(item, sizeof(*item))) \
+__CPROVER_assigns() \
+__CPROVER_ensures(__CPROVER_return_value == (EXPR))
+DECL_ITEM_GETTER(contract_C08_jwks_item_is_private, int, item->is_private_key ? 1 : 0);
+DECL_ITEM_GETTER(contract_C14_jwks_item_error, int, item->error);
+DECL_ITEM_GETTER(contract_C14_jwks_item_error_msg, const char *, item->error_msg);
+/* curve: NULL for keys that have none (RSA, oct), else the stored name */
+DECL_ITEM_GETTER(contract_C08_jwks_item_curve, const char *, item->curve[0] ? item->curve : (const char *)0);
+DECL_ITEM_GETTER(contract_C08_jwks_item_kid, const char *, item->kid);
+DECL_ITEM_GETTER(contract_C08_jwks_item_alg, jwt_alg_t, item->alg);
+DECL_ITEM_GETTER(contract_C08_jwks_item_kty, jwk_key_type_t, item->kty);
+DECL_ITEM_GETTER(contract_C08_jwks_item_use, jwk_pub_key_use_t, item->use);
+DECL_ITEM_GETTER(contract_C08_jwks_item_key_ops, jwk_key_op_t, item->key_ops);
+DECL_ITEM_GETTER(contract_C08_jwks_item_pem, const char *, item->pem);
+DECL_ITEM_GETTER(contract_C08_jwks_item_key_bits, int, (int)item->bits);
+/* oct key bytes: handed out only when there are some; otherwise 1 and the outputs are untouched */
+int contract_C08_jwks_item_key_oct(const jwk_item_t *item, const unsigned char **buf, size_t *len)
+__CPROVER_requires(__CPROVER_is_fresh(item, sizeof(*item)) && __CPROVER_is_fresh(buf, sizeof(*buf)) && __CPROVER_is_fresh(len, sizeof(*len)))
+__CPROVER_assigns(*buf, *len)
+__CPROVER_ensures(__CPROVER_return_value == ((item->oct.key != NULL && item->oct.len != 0) ? 0 : 1))
+__CPROVER_ensures(__CPROVER_return_value == 0 ==> (*buf == (const unsigned char *)item->oct.key && *len == item->oct.len))
+__CPROVER_ensures(__CPROVER_return_value != 0 ==> (*buf == __CPROVER_old(*buf) && *len == __CPROVER_old(*len)))
+;
+int contract_C14_jwks_error(const jwk_set_t *jwk_set)
+__CPROVER_requires(__CPROVER_is_fresh(jwk_set, sizeof(*jwk_set)))
+__CPROVER_assigns()
+__CPROVER_ensures(__CPROVER_return_value == (jwk_set->error ? 1 : 0))
+;
+const char *contract_C14_jwks_error_msg(const jwk_set_t *jwk_set)
+__CPROVER_requires(__CPROVER_is_fresh(jwk_set, sizeof(*jwk_set)))
+__CPROVER_assigns()
+__CPROVER_ensures(__CPROVER_return_value == jwk_set->error_msg)
+;
+/* clearing: flag and message gone, the list untouched (frame) */
+void contract_C14_jwks_error_clear(jwk_set_t *jwk_set)
+__CPROVER_requires(__CPROVER_is_fresh(jwk_set, sizeof(*jwk_set)))
+__CPROVER_assigns(jwk_set->error, __CPROVER_object_upto(jwk_set->error_msg, JWT_ERR_LEN))
+__CPROVER_ensures(jwk_set->error == 0 && jwk_set->error_msg[0] == 0 && jwk_set->error_msg[JWT_ERR_LEN - 1] == 0)
+__CPROVER_ensures(g_str_k < JWT_ERR_LEN ==> jwk_set->error_msg[g_str_k] == 0)
+;
 #ifdef VERIF_TU_JWKS
 /* ---- the loaders: parse with JSON_DECODE_ANY, hand exactly that document to jwks_process once,
  * on the caller's set or on a fresh empty one; no input => NULL and nothing touched (C07) ---- */
